@@ -343,4 +343,3 @@ func NewStall() *Stall {
 
 func (s *Stall) Max() time.Duration { return time.Duration(s.max.Load()) }
 func (s *Stall) Stop()              { close(s.stop) }
-
